@@ -198,6 +198,22 @@ func (g *G) Matrix() *pipeline.Matrix {
 		// simple list
 		return &pipeline.Matrix{Setup: pipeline.MatrixSetup{"": g.strList("mv", 1, 3)}}
 	}
+	if g.intn("nodims", 0, 7) == 0 {
+		// a matrix without dimensions that is not empty: adjustments that name no dimension, extras
+		// (nil setup and nil `with`, the shape a parse gives)
+		m := &pipeline.Matrix{}
+		for i, n := 0, g.intn("nadj0", 1, 2); i < n; i++ {
+			a := &pipeline.MatrixAdjustment{Skip: rapid.SampledFrom([]any{nil, false, true, "reason"}).Draw(g.T, "skip0")}
+			if g.intn("adjrem0", 0, 2) == 0 {
+				a.RemainingFields = map[string]any{"soft_fail": g.Scalar("softfail0")}
+			}
+			m.Adjustments = append(m.Adjustments, a)
+		}
+		if g.intn("mrem0", 0, 2) == 0 {
+			m.RemainingFields = map[string]any{"extra": g.Value("mextra0", 1)}
+		}
+		return m
+	}
 	m := &pipeline.Matrix{Setup: pipeline.MatrixSetup{}}
 	nd := g.intn("ndims", 1, 3)
 	for i := 0; i < nd; i++ {
